@@ -394,6 +394,27 @@ func init() {
 		}
 	})
 
+	// ------------------------------------------------------------------ C14.R9
+	// The recorded sender of a chunk goes with the chunk: it may be forgotten only together with a chunk that
+	// was not handed to the app yet (so that a refetched chunk gets its new sender). A chunk that was returned
+	// stays in the queue and is handed out again after RETRY / RETRY_SNAPSHOT — with the sender it arrived from.
+	register("C14", "R9", "K1", "a chunk's recorded sender is dropped only for a chunk not yet handed to the app", 1, func(c *Ctx) {
+		w := c.W
+		n := 0
+		for _, f := range w.methodsOf("statesync", "chunkQueue") {
+			for _, call := range rawCallsTo(w, f, "builtin#delete") {
+				if !strings.HasSuffix(w.expr(call.Common().Args[0]), ".chunkSenders") {
+					continue
+				}
+				n++
+				key := q(w.expr(call.Common().Args[1]))
+				c.guards(f, call, funcKey(f)+" :: forget a chunk's sender", 0,
+					guardRe("the chunk was not handed to the app", `^false\(\w+\.chunkReturned\[`+key+`\]\)$`))
+			}
+		}
+		c.Check(n >= 1, "statesync.chunkQueue :: sender deletions found", "-", ">= 1", fmt.Sprintf("%d", n))
+	})
+
 	// ------------------------------------------------------------------ C14.R6
 	register("C14", "R6", "K1", "chunks: first arrival fixes bytes and sender; the app gets the lowest unreturned index with the recorded sender", 8, func(c *Ctx) {
 		w := c.W
